@@ -111,6 +111,7 @@ META['C13'] = dict(
         "acknowledges and the value is committed, or reports an error and the committed table is exactly as before, and in both cases leaves no transaction open (put_single, put_leaves_no_tx, put_ack_committed, put_error_changes_nothing); "
         "a fault at any primitive call it makes is reported (put_fault_reports_error); without faults it succeeds (put_succeeds_without_faults: not wedged); Get/Start/Stop/Abort/Close leave no transaction open in single-operation mode; "
         "an all-successful explicit transaction commits the last value of every key at Stop and nothing at Abort (multi_stop_commits_all, multi_abort_commits_none, any number of writes); "
+        "writes and successful reads inside it - through the translation key or the default key - leave it open with the same pending table and the committed table untouched (puts_in_multi, query_in_multi, get_found_in_multi); "
         "for EVERY operation sequence and fault set from a fresh handle the driver's log is well bracketed - begin i / end i pairs with ids 0,1,2,.. in order plus one unmatched begin exactly when a transaction is open - so every transaction begun is ended exactly once and never two are open "
         "(log_well_bracketed, ended_exactly_once, by an invariant over all six operations). Holds since two fix: commits. "
         "Tie/oracle: ALL operation sequences up to length 3 (4 thorough) over a 10-op alphabet x no fault / every single / every pair of failing calls, plus 1500/30000 random longer sequences with up to 3 faults, on the real wrapper over the fake and on the model, every result, the begin/commit/rollback log, committed table and open flag compared."),
@@ -128,7 +129,7 @@ META['C16'] = dict(
 
 META['C12'] = dict(
   text=("Kernel-checked for EVERY save pattern in the safe language (reads; exclusive temporary file; any number of writes, syncs, closes; one rename over the record; reads), every crash point k, every directory content and value: the record reads as the complete old or the complete new content, "
-        "all other records are untouched (safe_save_is_crash_atomic, by phase induction over the operation string), and a fresh process continues from the old or the new state, never a silent restart (safe_save_session_continues); the pre-fix pattern (O_TRUNC open, write) is proved torn at the first crash point and to restart silently. "
+        "all other records are untouched (safe_save_is_crash_atomic, by phase induction over the operation string), and a fresh process continues from the old or the new state, never a silent restart (safe_save_session_continues); the pre-fix pattern (O_TRUNC open, write) is proved torn at the first crash point and to restart silently, and removing the record before the rename is shown to lose it (remove_before_rename_loses_record, kernel-evaluated). "
         "Tie: the real engine saves a generated session history on the real fs store in a child process under strace; the system calls of the save are abstracted to the operation string, the model's pattern check is evaluated on it (a different pattern breaks the obligation), and the process is KILLED on entry to every call of the save in turn; "
         "after each kill the record (decoded) and the next request served by a fresh process are compared with the model's prediction and with reference runs. Holds since one fix: commit (temp file + fsync + rename)."),
   note=("Trusted: Lean kernel + standard axioms; the operation-level crash model (process death at system-call boundaries; rename atomic); strace-based injection and the harness's call abstraction; CBOR as a parameter. Power-loss durability beyond fsync ordering is not modelled. gdbm/pg backends are out of scope of C12."))
